@@ -1694,8 +1694,8 @@ class PostMethod(Method):
             return Response(status=507, reason="Insufficient Storage")
         except ResourceLocked:
             return Response(status=423, reason="Resource Locked")
-        href = environ["SCRIPT_NAME"].rstrip("/") + urllib.parse.urljoin(
-            ensure_trailing_slash(path), urllib.parse.quote(name)
+        href = environ["SCRIPT_NAME"].rstrip("/") + urllib.parse.quote(
+            ensure_trailing_slash(path) + name
         )
         return Response(headers={"Location": href})
 
